@@ -662,7 +662,8 @@ impl<'lexer> Lexer<'lexer> {
       // take a sublist of the original part list until the list is empty
       let part_sublist = &parts[..part_count];
       // flatten the name parts to compare it with built-in names and keys in current context
-      let name = flatten_name_parts(part_sublist);
+      // (normalised exactly as the names that were put into the context)
+      let name = Name::from(part_sublist.to_vec()).to_string();
       // check if the flattened name exists as a key in the current context
       if flattened_keys.contains(&name) {
         // return to the input all characters that do not belong to the name that was found
